@@ -352,6 +352,9 @@ def run(ctx):
     ctx.rule("R14.p", "the class route reaches the guard on every path: in ParameterizedMetaclass.__setattr__, once the attribute names a Parameter and the value is not a Parameter object, "
                       "every path to a normal exit passes a call of the descriptor's __set__ (must-pass-through on the CFG)", floor=1)
     class_route_reaches_the_setter(ctx, "R14.p")
+    ctx.rule("R14.q", "descriptor lookup model: ParameterizedMetaclass.get_param_descriptor interpreted on a diamond D(B, C) where only C re-declares the Parameter (read-only / constant): a "
+                      "class-level set on D is handed to C's Parameter -- the nearest declaring class of the MRO -- whose guard then applies", floor=1)
+    namespace_model.descriptor_lookup_model(ctx, "R14.q")
     ctx.rule("R14.d", "who may rebind the class-level value: every store to `<x>.default` in param is a Parameter's own (`self.default = ...` inside a Parameter class: constructors, the "
                       "descriptor's __set__ behind its guard, compute_default, state fix-ups); nothing writes the `default` of another object", floor=1)
     default_rebound_by_the_parameter_only(ctx, "R14.d")
